@@ -138,6 +138,27 @@ def persistent_return(cls_node, fn):
     return None
 
 
+def argument_views(fn):
+    """[(return stmt, parameter)] for returns that hand out a parameter itself or a basic-slicing / transposing / reshaping view of it"""
+    params = {a.arg for a in fn.args.args} - {"self"}
+    out = []
+    for r in [w for w in ast.walk(fn) if isinstance(w, ast.Return) and w.value is not None]:
+        v = r.value
+        while True:
+            if isinstance(v, ast.Subscript) and not any(isinstance(x, (ast.List, ast.Name, ast.Call)) for x in ast.walk(v.slice) if not isinstance(x, ast.Slice) and x is not v.slice) \
+                    and (isinstance(v.slice, ast.Slice) or (isinstance(v.slice, ast.Tuple) and any(isinstance(e, ast.Slice) for e in v.slice.elts))):
+                v = v.value
+            elif isinstance(v, ast.Attribute) and v.attr == "T":
+                v = v.value
+            elif isinstance(v, ast.Call) and isinstance(v.func, ast.Attribute) and v.func.attr in ("reshape", "view", "ravel", "squeeze", "transpose"):
+                v = v.func.value
+            else:
+                break
+        if isinstance(v, ast.Name) and v.id in params:
+            out.append((r, v.id))
+    return out
+
+
 def side_effects(fn):
     """stores to instance attributes inside a memoised method: on a cache HIT the body does not run, so whoever reads such an attribute
     afterwards sees the value of the last MISS, which belongs to other arguments as soon as the cache holds more than one entry (or another
@@ -189,7 +210,14 @@ def report(ctx, rule, scope, check_returns=True, floor_note=True):
                     rep.bad(rule, C, st, f"the memoised method returns the instance buffer `self.{a}` and rewrites it on every call (`{norm_src(st)[:60]}`): all results handed out so far "
                             "alias one array and change with the next call (another offset, another state)", f"{rel}:{st.lineno}")
                 else:
-                    rep.ok(rule, C, "memoised method returns a freshly built value")
+                    views = argument_views(fn)
+                    if views:
+                        r_, p_ = views[0]
+                        rep.bad(rule, C, r_, f"the memoised method returns `{norm_src(r_.value)}`, a view of its own argument `{p_}` (basic slicing does not copy): the cache entry aliases an array "
+                                "the CALLER owns, so an in-place update of that array (a state update, a restore from a snapshot) changes the entry under an unchanged key and a later call with "
+                                "the old values is served the new state's result", f"{rel}:{r_.lineno}")
+                    else:
+                        rep.ok(rule, C, "memoised method returns a freshly built value")
                 for st, a in side_effects(fn):
                     rep.bad(rule, C, st, f"the memoised method stores `self.{a}` as a side effect: a cache hit skips the body, so a later reader of `self.{a}` gets the value of the last "
                             "cache MISS, which belongs to other arguments once two configurations alternate (and the reader memoises the wrong result in turn)", f"{rel}:{st.lineno}")
